@@ -96,28 +96,13 @@ def expected_of(case):
     return bytes.fromhex(f[5]).decode() if len(f) > 5 and f[5] != "-" else None
 
 
-def io_gap(impl, other):
-    """The one modelled-out behaviour: an $INCLUDE whose path names a DIRECTORY is opened
-    successfully by File::open and fails at the first read (GeneralIo, reported against the
-    directory's path); the model's file system has no directories, so it reports the open as failed.
-    Accepted only in exactly this shape: same records, then io:<P> vs open:<includer>:<line>:<P>."""
-    a, b = impl.split(" # ")[0].split(" ; "), other.split(" # ")[0].split(" ; ")
-    if a[:-1] != b[:-1] or not a[-1].startswith("err=io:") or not b[-1].startswith("err=open:"):
-        return False
-    return b[-1].split(":")[3] == a[-1].split(":")[1]
-
-
-def corr_eq_full(case, impl, model):
-    return impl == model or io_gap(impl, model)
-
-
 def oracle_ok_full(case, impl, oracle):
     """impl = the structural expansion of the same tree (extracted spec); = the line the generator
     computed from the abstract records when the tree is predictable; the flattened text (when there
     is one) parses to the same record sequence."""
     if impl in ("panic", "timeout", "crash") or " after=" in impl:
         return False
-    if impl != oracle and not io_gap(impl, oracle):
+    if impl != oracle:
         return False
     exp = expected_of(case)
     if exp is not None and impl != exp:
@@ -166,7 +151,7 @@ CHECK = {
         "name": "zonefull",
         "impl_bin": "impl_c25f", "extract": "Extract/ExC25f.v", "driver": "run_c25f.ml",
         "gen": gen_full, "nontrivial": nontrivial_full, "classify": classify_full,
-        "oracle_ok": oracle_ok_full, "corr_eq": corr_eq_full,
+        "oracle_ok": oracle_ok_full,
         "exhaustive": {"quick": False, "thorough": False},
         "rule": ("random trees of REAL zone files (checks/incgen.py): 1..7 files in sub-directories (one with a blank in its name), generated in "
                  "execution order by a generator that carries the parse context the property prescribes; every record type of checks/zfgen.py "
@@ -188,7 +173,8 @@ CHECK = {
         "sub-language (tokenisation at blanks in ocaml/run_c25.ml); suite zonefull: the per-file parser is the full zone-file parser model "
         "of C24 (Model/ZfReader.v, ZfParser.v, ZfStd.v: its correspondence to the code is C24's and this suite's differential run, not a proof)",
         "checks/incgen.py + checks/zfgen.py as an independent statement of what a rendered tree denotes (third opinion on predictable trees)",
-        "I/O errors while reading are not modelled: an $INCLUDE naming a directory (open succeeds, read fails) is accepted only in exactly that shape (io_gap)",
+        "I/O errors while reading are modelled only for directories (File::open succeeds, the first read fails: GeneralIo against the directory's path); "
+        "which paths name directories is decided lexically by ocaml/run_c25f.ml from the generated tree",
         "path semantics of the OS (the driver resolves `..` lexically before looking a path up in the generated tree); "
         "Path::parent/join modelled for paths without empty or `.` components",
     ],
